@@ -37,6 +37,7 @@ type Program struct {
 	// Renames lists the reference anchors that were found under another name (see anchors.go).
 	Renames    []string
 	fieldAlias map[string]string
+	typeAlias  map[string]string
 	astFn      map[*ssa.Function]ast.Node
 	cg         *callgraph.Graph
 	allFns     map[*ssa.Function]bool
@@ -231,6 +232,9 @@ func (p *Program) Named(qual string) *types.Named {
 	}
 	o := pk.Scope().Lookup(qual[i+1:])
 	if o == nil {
+		if a, ok := p.typeAlias[qual]; ok && a != qual {
+			return p.Named(a)
+		}
 		return nil
 	}
 	n, _ := o.Type().(*types.Named)
